@@ -39,8 +39,13 @@ def run(repo, res):
             raise AnalysisError('get_expr_end is outside the interpretable subset on %r: %s' % (text, detail))
         res.check('C03-R3', 'get_expr_end on the layout %r' % text, ok, 'supp/util.py', 0, 'the visibility anchor of a binding must lie after every read inside its value expression in every layout: %s' % detail,
                   sample='get_expr_end(%r) = start of the textually last node + 1 column' % text)
+    layout_wrong = any(ok is False for _t, ok, _d in expr_end_layouts(repo))
     for cls, verdict, detail in sem:
         if verdict == 'unknown':
+            if layout_wrong:
+                # the symbolic model gives up on this get_expr_end, but a concrete layout above already shows a wrong result:
+                # that is a verdict (reported above with the layout), not an analysis failure
+                return
             raise AnalysisError('get_expr_end is outside the interpretable subset: %s' % detail)
         res.check('C03-R3', 'get_expr_end on %s' % cls, verdict == 'ok', 'supp/util.py', 0,
                   'the visibility anchor of a binding must lie after every read inside its value expression (%s): otherwise '
